@@ -110,11 +110,7 @@ func (d *decoder) decodeArray(v value, elemType reflect.Type, decodeElem decodeF
 	if n := d.readInt32(); n < 0 || !d.validLength(int(n)) {
 		v.setArray(array{})
 	} else {
-		a := makeArray(elemType, int(n))
-		for i := 0; i < int(n) && d.remain > 0; i++ {
-			decodeElem(d, a.index(i))
-		}
-		v.setArray(a)
+		d.decodeArrayOf(v, elemType, decodeElem, int(n))
 	}
 }
 
@@ -122,12 +118,42 @@ func (d *decoder) decodeCompactArray(v value, elemType reflect.Type, decodeElem 
 	if n := d.readUnsignedVarInt(); n < 1 || !d.validLength(int(n-1)) {
 		v.setArray(array{})
 	} else {
-		a := makeArray(elemType, int(n-1))
-		for i := 0; i < int(n-1) && d.remain > 0; i++ {
-			decodeElem(d, a.index(i))
-		}
-		v.setArray(a)
+		d.decodeArrayOf(v, elemType, decodeElem, int(n-1))
 	}
+}
+
+const (
+	// Lengths found in the input are only known to fit in the size the
+	// message announced for itself, which is not the number of bytes that
+	// were received. Arrays and byte sequences longer than these limits are
+	// allocated as their content arrives, so that the memory used is
+	// proportional to what was actually read.
+	maxArrayPrealloc = 256
+	maxBytesPrealloc = 64 * 1024
+)
+
+func (d *decoder) decodeArrayOf(v value, elemType reflect.Type, decodeElem decodeFunc, n int) {
+	m := n
+	if m > maxArrayPrealloc {
+		m = maxArrayPrealloc
+	}
+	a := makeArray(elemType, m)
+	i := 0
+	for ; i < n && d.remain > 0 && d.err == nil; i++ {
+		if i == a.length() {
+			if m = 2 * a.length(); m > n {
+				m = n
+			}
+			a = growArray(elemType, a, m)
+		}
+		decodeElem(d, a.index(i))
+	}
+	if d.err == nil && a.length() < n {
+		// The end of the message was reached, the remaining elements (which
+		// take no space in the encoding) are left to their zero value.
+		a = growArray(elemType, a, n)
+	}
+	v.setArray(a)
 }
 
 func (d *decoder) discardAll() {
@@ -175,6 +201,16 @@ func (d *decoder) skip(n int64) {
 func (d *decoder) read(n int) []byte {
 	if !d.validLength(n) {
 		return nil
+	}
+	if n > maxBytesPrealloc {
+		// see maxBytesPrealloc
+		buf := &bytes.Buffer{}
+		c, err := io.CopyN(buf, d, int64(n))
+		if err == io.EOF && c > 0 {
+			err = io.ErrUnexpectedEOF
+		}
+		d.setError(err)
+		return buf.Bytes()
 	}
 	b := make([]byte, n)
 	n, err := io.ReadFull(d, b)
